@@ -67,6 +67,7 @@ func main() {
 	solver := flag.String("solver", "z3-new", "primary solver: z3|z3-new|cvc5")
 	trace := flag.Bool("trace", false, "trace instructions")
 	noReplay := flag.Bool("noreplay", false, "do not replay counterexamples natively")
+	witnessN := flag.Int("witnesses", -1, "passing-path witnesses per harness replayed natively for conformance (-1: none quick, 10 thorough)")
 	smtlog := flag.Bool("smtlog", false, "log solver dialogue under work/")
 	replayPath := flag.String("replay", "", "replay a stored counterexample file natively and exit")
 	noEvidence := flag.Bool("noevidence", false, "do not write the evidence file")
@@ -187,6 +188,14 @@ func main() {
 		timeout = 120000
 	}
 	var results []*interp.HarnessResult
+	var harnessPkgs []string
+	nWit := *witnessN
+	if nWit < 0 {
+		nWit = 0
+		if *tier == "thorough" {
+			nWit = 10
+		}
+	}
 	exit := 0
 	violations := 0
 	var problems []string
@@ -198,7 +207,7 @@ func main() {
 			fatal(3, "harness %s.%s not found", h.Pkg, h.Func)
 		}
 		opt := interp.Options{Workers: *workers, SolverName: *solver, TimeoutMs: timeout, MaxSteps: 20_000_000,
-			MaxPaths: 200000, MaxDecisions: 4000, Known: knownIDs, Trace: *trace, PanicOK: h.PanicOK, KeepSMT: true}
+			MaxPaths: 200000, MaxDecisions: 4000, Known: knownIDs, Trace: *trace, PanicOK: h.PanicOK, KeepSMT: true, Witnesses: nWit}
 		if h.MaxPaths > 0 {
 			opt.MaxPaths = h.MaxPaths
 		}
@@ -219,10 +228,12 @@ func main() {
 			exit = 3
 			if res != nil {
 				results = append(results, res)
+				harnessPkgs = append(harnessPkgs, h.Pkg)
 			}
 			continue
 		}
 		results = append(results, res)
+		harnessPkgs = append(harnessPkgs, h.Pkg)
 		fmt.Printf("harness %-40s paths=%d (symbolic %d, dropped %d) obligations=%d discharged=%d violations=%d inconclusive=%d feas-queries=%d oblig-queries=%d steps=%d solver=%.1fs wall=%.1fs\n",
 			h.Func, res.Paths, res.SymbolicPaths, res.Aborted, res.Obligations, res.Discharged, len(res.Violations), len(res.Inconclusive),
 			res.Feasibility, res.ObligQueries, res.Steps, res.SolverTime.Seconds(), res.Wall.Seconds())
@@ -311,6 +322,59 @@ func main() {
 			fmt.Printf("KNOWN-FINDING: property=%s %s [%s; assertion %q]\n", *prop, k.What, k.ID, lbl)
 		}
 	}
+	// conformance: replay witnesses of passing paths natively
+	conf := Conformance{}
+	if nWit > 0 && !*noReplay {
+		type wrec struct {
+			Harness string            `json:"harness"`
+			Model   map[string]string `json:"model"`
+			Covers  []string          `json:"covers"`
+		}
+		byPkg := map[string][]wrec{}
+		for k, res := range results {
+			if k >= len(harnessPkgs) {
+				break
+			}
+			for _, w := range res.Witnesses {
+				byPkg[harnessPkgs[k]] = append(byPkg[harnessPkgs[k]], wrec{Harness: res.Name, Model: w.Model, Covers: w.Covers})
+			}
+		}
+		var pkgs []string
+		for pk := range byPkg {
+			pkgs = append(pkgs, pk)
+		}
+		sort.Strings(pkgs)
+		t0 := time.Now()
+		for _, pk := range pkgs {
+			file := filepath.Join(workDir, "witnesses_"+strings.ReplaceAll(pk, "/", "_")+".json")
+			bz, _ := json.Marshal(byPkg[pk])
+			os.WriteFile(file, bz, 0o644)
+			agree, differ, diffs, err := witnessNative(*repo, *verif, reg, pk, file)
+			if err != nil {
+				fmt.Printf("INCONCLUSIVE property=%s conformance replay of package %s did not run: %v\n", *prop, pk, err)
+				problems = append(problems, "conformance replay failed for "+pk)
+				if exit == 0 {
+					exit = 3
+				}
+				continue
+			}
+			conf.Witnesses += agree + differ
+			conf.Agree += agree
+			conf.Differ += differ
+			for _, d := range diffs {
+				fmt.Printf("CONFORMANCE-MISMATCH property=%s %s\n", *prop, d)
+				conf.Differences = append(conf.Differences, d)
+			}
+		}
+		conf.Seconds = time.Since(t0).Seconds()
+		if conf.Differ > 0 {
+			problems = append(problems, fmt.Sprintf("engine and native run differ on %d witness paths", conf.Differ))
+			if exit == 0 {
+				exit = 3
+			}
+		}
+		fmt.Printf("conformance: %d passing-path witnesses replayed natively, %d agree, %d differ (%.1fs)\n", conf.Witnesses, conf.Agree, conf.Differ, conf.Seconds)
+	}
 	// cross-check obligation queries on other solvers
 	xc := crossCheck(results, *tier, *solver, workDir)
 	if xc.Disagreements > 0 {
@@ -322,7 +386,7 @@ func main() {
 	}
 	wall := time.Since(start).Seconds()
 	if !*noEvidence {
-		writeEvidence(*verif, *prop, *tier, seed, results, ps, wall, violations, strings.Join(problems, "; "), &extra{LoadS: loadS, XC: xc, Solver: *solver, InitStubs: sess.InitStubs, Workers: *workers})
+		writeEvidence(*verif, *prop, *tier, seed, results, ps, wall, violations, strings.Join(problems, "; "), &extra{LoadS: loadS, XC: xc, Solver: *solver, InitStubs: sess.InitStubs, Workers: *workers, Conf: conf})
 	}
 	switch exit {
 	case 0:
@@ -432,9 +496,37 @@ func buildOverlay(repo, verif string) (map[string][]byte, error) {
 
 // replayNative runs the harness natively (go test -overlay) on the model in file.
 func replayNative(repo, verif string, reg Registry, pkg, file string) (bool, string) {
+	ok, rep, _ := runNativeDriver(repo, verif, reg, pkg, "^TestVerifReplay$", "VERIF_REPLAY="+file)
+	return ok, rep
+}
+
+// witnessNative replays passing-path witnesses of one package natively (conformance of the
+// engine with the compiled code); returns agree / differ counts and the difference lines.
+func witnessNative(repo, verif string, reg Registry, pkg, file string) (agree, differ int, diffs []string, err error) {
+	_, _, txt := runNativeDriver(repo, verif, reg, pkg, "^TestVerifWitness$", "VERIF_WITNESSES="+file)
+	found := false
+	for _, l := range strings.Split(txt, "\n") {
+		if i := strings.Index(l, "VERIF-WITNESS-DIFF "); i >= 0 {
+			diffs = append(diffs, strings.TrimSpace(l[i+len("VERIF-WITNESS-DIFF "):]))
+		} else if i := strings.Index(l, "VERIF-WITNESS agree="); i >= 0 {
+			fmt.Sscanf(strings.TrimSpace(l[i:]), "VERIF-WITNESS agree=%d differ=%d", &agree, &differ)
+			found = true
+		}
+	}
+	if !found {
+		tail := txt
+		if len(tail) > 1200 {
+			tail = tail[len(tail)-1200:]
+		}
+		return 0, 0, nil, fmt.Errorf("witness run failed: %s", tail)
+	}
+	return agree, differ, diffs, nil
+}
+
+func runNativeDriver(repo, verif string, reg Registry, pkg, run, env string) (bool, string, string) {
 	files, err := overlayFiles(repo, verif)
 	if err != nil {
-		return false, err.Error()
+		return false, err.Error(), ""
 	}
 	// generated test driver listing every harness function of the package
 	var names []string
@@ -450,7 +542,7 @@ func replayNative(repo, verif string, reg Registry, pkg, file string) (bool, str
 	sort.Strings(names)
 	pkgName, err := packageName(filepath.Join(repo, pkg))
 	if err != nil {
-		return false, err.Error()
+		return false, err.Error(), ""
 	}
 	var sb strings.Builder
 	fmt.Fprintf(&sb, "package %s\n\nimport (\n\t\"testing\"\n\t\"%s/zzverif/rt\"\n)\n\n", pkgName, modPath)
@@ -459,6 +551,11 @@ func replayNative(repo, verif string, reg Registry, pkg, file string) (bool, str
 		fmt.Fprintf(&sb, "\t\t%q: %s,\n", n, n)
 	}
 	sb.WriteString("\t})\n\tt.Log(\"VERIF-REPLAY \" + rep)\n\tif ok {\n\t\tt.Fatal(\"VERIF-REPLAY-REPRODUCED\")\n\t}\n}\n")
+	sb.WriteString("\nfunc TestVerifWitness(t *testing.T) {\n\tagree, differ, lines := rt.WitnessMain(map[string]func(){\n")
+	for _, n := range names {
+		fmt.Fprintf(&sb, "\t\t%q: %s,\n", n, n)
+	}
+	sb.WriteString("\t})\n\tfor _, l := range lines {\n\t\tt.Log(\"VERIF-WITNESS-DIFF \" + l)\n\t}\n\tt.Logf(\"VERIF-WITNESS agree=%d differ=%d\", agree, differ)\n}\n")
 	work := filepath.Join(verif, "work", "replay")
 	os.MkdirAll(work, 0o755)
 	drv := filepath.Join(work, "driver_"+strings.ReplaceAll(pkg, "/", "_")+"_test.go")
@@ -467,9 +564,9 @@ func replayNative(repo, verif string, reg Registry, pkg, file string) (bool, str
 	ovj, _ := json.Marshal(map[string]interface{}{"Replace": files})
 	ovp := filepath.Join(work, "overlay.json")
 	os.WriteFile(ovp, ovj, 0o644)
-	cmd := exec.Command("go", "test", "-count=1", "-vet=off", "-overlay="+ovp, "-run", "^TestVerifReplay$", "-v", "./"+pkg+"/")
+	cmd := exec.Command("go", "test", "-count=1", "-vet=off", "-overlay="+ovp, "-run", run, "-v", "./"+pkg+"/")
 	cmd.Dir = repo
-	cmd.Env = append(os.Environ(), "GOFLAGS=-mod=mod", "GOPROXY=off", "GOSUMDB=off", "GOTOOLCHAIN=local", "VERIF_REPLAY="+file)
+	cmd.Env = append(os.Environ(), "GOFLAGS=-mod=mod", "GOPROXY=off", "GOSUMDB=off", "GOTOOLCHAIN=local", env)
 	out, _ := cmd.CombinedOutput()
 	txt := string(out)
 	rep := ""
@@ -479,7 +576,7 @@ func replayNative(repo, verif string, reg Registry, pkg, file string) (bool, str
 		}
 	}
 	if strings.Contains(txt, "VERIF-REPLAY-REPRODUCED") {
-		return true, rep
+		return true, rep, txt
 	}
 	if rep == "" {
 		tail := txt
@@ -488,7 +585,7 @@ func replayNative(repo, verif string, reg Registry, pkg, file string) (bool, str
 		}
 		rep = "replay run failed: " + tail
 	}
-	return false, rep
+	return false, rep, txt
 }
 
 func packageName(dir string) (string, error) {
